@@ -99,6 +99,34 @@ class LiteralDeserialize:
     loops = {0: lambda c: LiteralDeserialize._inv(None, c)}
 
 
+@contract(f"{M}:copy_containers", props=["C08"])
+class CopyContainers:
+    """a dict / list datum is rebuilt (fresh dict / list of the same size, recursively); any other
+    datum is returned as is.  The body is a recursive comprehension (outside the subset): assumed
+    at the call site of AnyMethod, B-checked by drivers/opt_equiv (no sharing with the input)."""
+
+    assumed = True
+    raises: list = []
+    writes = ["llen", "lget", "dhas", "dget", "dlen"]
+
+    def requires(self, c):
+        return []
+
+    def modifies(self, c):
+        return []
+
+    def allocates(self, c):
+        d = c.data
+        return [("dict", c.result, isinst(d, "dict")), ("list", c.result, z3.And(z3.Not(isinst(d, "dict")), isinst(d, "list")))]
+
+    def ensures(self, c):
+        d, r = c.data, c.result
+        return {
+            "identity on non-containers": z3.Implies(z3.Not(z3.Or(isinst(d, "dict"), isinst(d, "list"))), r == d),
+            "same size": z3.And(z3.Implies(isinst(d, "dict"), c.dlen(r) == c.dlen0(d)), z3.Implies(z3.And(z3.Not(isinst(d, "dict")), isinst(d, "list")), c.llen(r) == c.llen0(d))),
+        }
+
+
 @contract(f"{M}:AnyMethod.deserialize", props=["C01", "C03", "C08"])
 class AnyDeserialize:
     kinds = {"self.constraints": "dict"}
@@ -114,7 +142,10 @@ class AnyDeserialize:
         has = c.dhas0(cs, cls(d))
         out = {"C01: any value is accepted provided the constraints registered for its JSON class hold": c.returned == z3.Or(z3.Not(has), S.all_hold(c.dget0(cs, cls(d)), d))}
         if c.is_return:
-            out["C01/C08: the datum itself"] = c.result == d
+            copy = c.truthy0(c.attr0(c.self, "copy"))
+            container = z3.Or(isinst(d, "dict"), isinst(d, "list"))
+            out["C01/C08: the datum itself, unless it is a list / dict and a copy is asked for"] = z3.Implies(z3.Or(z3.Not(copy), z3.Not(container)), c.result == d)
+            out["C08: when a copy is asked for (no_copy=False) a list / dict datum is not returned: the result is a fresh container"] = z3.Implies(z3.And(copy, container), z3.And(c.fresh(c.result), c.result != d))
         if c.is_raise:
             e = c.exc
             tup = c.dget0(cs, cls(d))
